@@ -53,6 +53,12 @@ def edge_modules(rng, n_multi):
             pi2v.IMP(pi2v.ES(pi2v.SS(M(0), 0, M(2)), 1, M(1)), M(0))]
     mods.append({'axioms': pend, 'proofs': [['dyn', ['axiom', 0], [[1, X1]]], ['dyn', ['axiom', 1], [[2, S0]]], ['dyn', ['axiom', 1], [[1, pi2v.SV(0)], [2, M(0)]]],
                                             ['dyn', ['axiom', 2], [[2, pi2v.SV(1)]]], ['dyn', ['axiom', 2], [[1, X0], [0, pi2v.IMP(X1, pi2v.SV(0))]]]]})
+    # the body re-binds the substituted variable and the plug mentions it free: a legal no-op (shadowing comes before capture)
+    shadow_e, shadow_s = pi2v.EX(0, pi2v.APP(S0, X0)), pi2v.MU(1, pi2v.APP(S0, pi2v.SV(1)))
+    mods.append({'axioms': pend, 'proofs': [['dyn', ['axiom', 0], [[0, shadow_e], [1, pi2v.APP(S1, X0)]]],
+                                            ['dyn', ['dyn', ['axiom', 0], [[1, pi2v.APP(S1, X0)]]], [[0, shadow_e]]],
+                                            ['dyn', ['axiom', 1], [[0, shadow_s], [1, pi2v.SV(1)], [2, S0]]],
+                                            ['dyn', ['axiom', 0], [[0, pi2v.IMP(shadow_e, pi2v.EX(1, X1))], [1, X0]]]]})
     mods.append({'axioms': pend, 'proofs': [['dyn', ['axiom', 0], [[0, pi2v.IMP(X0, X0)], [1, X1]]], ['dyn', ['dyn', ['axiom', 0], [[1, M(2)]]], [[2, X1]]]]})
     return mods
 
